@@ -266,7 +266,10 @@ def causal_repair(toks, trace):
 def c10_extra(tier, seed, ctx):
     violations, samples, queries, evals = [], [], [], 0
     distinct = set()
-    fens = SEEDS[:2] if tier == "quick" else SEEDS[:6]
+    special = ["rnb1kbnr/pppp1ppp/8/4p3/4PP1q/8/PPPP2PP/RNBQKBNR w KQkq - 1 3",      # in check: b1a3 (first generated) is illegal
+               "4k3/8/8/8/8/8/8/r3RK2 w - - 0 1".replace("r3RK2", "rR3K2"),         # pinned piece on the lowest squares
+               "r3k2r/8/8/8/8/8/8/R3K2R b KQkq - 0 1"]
+    fens = (SEEDS[:1] + special[:2]) if tier == "quick" else (SEEDS[:4] + special)
     reps = 1 if tier == "quick" else 3
     conc_cases = []
     for fen in fens:
@@ -406,6 +409,33 @@ def c15_extra(tier, seed, ctx):
             violations.append(viol("C15", "panic-on-stderr", f"session={sidx} stderr={[l for _, l in eng.errlines() if 'panicked' in l][:2]} lines={lines[:10]}"))
         if len(samples) < 3:
             samples.append(f"session {sidx}: {lines[:5]} ... -> {what}: exit {rc} in {dt * 1000:.0f} ms")
+    # end of input while an unbounded search is running: the engine must still terminate promptly
+    for script in (["position startpos", "go infinite"], ["go"], ["position startpos moves e2e4", "go ponder"], ["go depth 200"], ["go infinite", "isready"]):
+        eng = Engine(ctx["engine"])
+        for l in script:
+            eng.send(l)
+        time.sleep(0.15)
+        rc, dt = eng.close(3.0)
+        evals += 1
+        distinct.add("EOF after " + " / ".join(script))
+        if rc is None:
+            violations.append(viol("C15", "did-not-exit", f"end of input during {script}: still running after {dt:.1f}s"))
+        elif rc != 0:
+            violations.append(viol("C15", "bad-exit-status", f"end of input during {script}: exit status {rc}"))
+    # quit while an unbounded search is running
+    eng = Engine(ctx["engine"])
+    eng.send("go infinite")
+    time.sleep(0.1)
+    eng.send("quit")
+    t = time.time()
+    try:
+        rc = eng.p.wait(timeout=3.0)
+    except subprocess.TimeoutExpired:
+        rc = None
+        eng.kill()
+    evals += 1
+    if rc != 0:
+        violations.append(viol("C15", "quit-during-search", f"exit status {rc} after {time.time() - t:.1f}s"))
     # end of input at every point of a fixed script
     script = ["uci", "isready", "position startpos moves e2e4 e7e5", "go depth 2", "isready", "ucinewgame", "go nodes 100", "stop"]
     for cut in range(len(script) + 1):
